@@ -7,7 +7,10 @@ import common
 KINDS = {"body", "volread", "cread", "cfill", "vread", "blk", "fread"}
 
 
-def record(argv, scratch, tag, ctx=None, timeout=60, cwd=None):
+STORAGE_KINDS = {"connect", "attach", "select", "cread"}
+
+
+def record(argv, scratch, tag, ctx=None, timeout=60, cwd=None, kinds=None):
     """Run argv with BEEBTOOLS_VERIF_TRACE; returns (Outcome, [events]) with a leading ctx event."""
     tp = os.path.join(scratch, "rs-%s.ndjson" % tag)
     if os.path.exists(tp):
@@ -21,7 +24,7 @@ def record(argv, scratch, tag, ctx=None, timeout=60, cwd=None):
                 line = line.strip()
                 if line:
                     e = json.loads(line)
-                    if e.get("e") in KINDS:        # the decoders' decision events share the file; they belong to TraceTrackM
+                    if e.get("e") in (kinds or KINDS):        # the decoders' decision events share the file; they belong to TraceTrackM
                         evs.append(e)
         os.unlink(tp)
     return o, evs
@@ -56,4 +59,37 @@ def validate(chk, runs, scratch, label="readstack"):
         chk.violation("%s:%s" % (label, e["e"]),
                       "%s: read-stack event %s (after %s) is not a step of ReadStack.tla: wrong layer / sector, a decision that differs from the "
                       "specification's, or a read outside its file or volume" % (desc, json.dumps(e), json.dumps(prev)), dict(run=desc, event=e, previous=prev))
+    return len(flat)
+
+
+def validate_storage(chk, runs, scratch, label="storage-hooks"):
+    """runs: list of (description, events incl. a leading ctx).  TraceStorageHook.tla: attach groups against RAttach, select against the
+    attached device, reads against the selected devices."""
+    flat, owner = [], []
+    for ri, (desc, evs) in enumerate(runs):
+        for e in evs:
+            flat.append(e)
+            owner.append(ri)
+    if not any(e["e"] == "attach" for e in flat):
+        raise common.MachineryError("%s: no attach events were recorded (is the build guarded with BEEBTOOLS_VERIF?)" % label)
+    trace = os.path.join(scratch, "%s-trace.ndjson" % label)
+    with open(trace, "w") as f:
+        for e in flat:
+            f.write(json.dumps(e) + "\n")
+    ok, tr = common.validate_trace("TraceStorageHook", "TraceStorageHook.cfg", trace, timeout=3000)
+    chk.add_tlc("TraceStorageHook(%s)" % label, tr)
+    chk.traces += len(runs)
+    if not ok or not tr.verdicts:
+        raise common.MachineryError("TraceStorageHook did not consume the whole trace:\n" + tr.output[-3000:])
+    kinds = {}
+    for e in flat:
+        kinds[e["e"]] = kinds.get(e["e"], 0) + 1
+    chk.extra.setdefault("storage_hook_events", {})[label] = kinds
+    for ln in sorted(tr.verdicts[-1]["bad"]):
+        e = flat[ln - 1]
+        desc = runs[owner[ln - 1]][0]
+        chk.violation("%s:%s" % (label, e["e"]),
+                      "%s: storage event %s is not a step Storage.tla allows (an attach group that does not meet RAttach, a select that hands out "
+                      "another device than the one attached under that number, or a read on a device that was never selected)" % (desc, json.dumps(e)),
+                      dict(run=desc, event=e))
     return len(flat)
